@@ -1,11 +1,157 @@
 (* Properties_C26.v — C26: Content-Length is accepted only when unambiguous.
-   Statements only; proofs live in ClenProofs.v. *)
-Require Import SquidV.Bytes SquidV.TokModel SquidV.ClenModel SquidV.ClenProofs.
+   Statements only; proofs live in ClenProofs.v.  Vocabulary (ClenProofs.v, specification part):
+     is_token relaxed item v  item = OWS 1*DIGIT OWS (the mode's white space), its number is v, v < 2^63
+     uses st v                the interpreter ends with sawGood, !sawBad and value = v
+     occurrences f            a field value split at commas, trimmed, empty elements ignored
+     cl_values es             the Content-Length field values of a header, in order
+     field_occ relaxed f      cv_parse of the occurrences of f the code examines (model side)
+     content_length r         HttpHeader::getInt64(CONTENT_LENGTH) after HttpHeader::parse *)
+Require Import SquidV.Bytes SquidV.ClenModel SquidV.ClenProofs.
 Require Import SquidV.gen.CharSets_gen.
 Local Open Scope N_scope.
 
-Theorem C26_strict_rejects_lists : forall v,
-  has_comma v = true -> check_field false cl_init v = (false, set_bad cl_init).
-Proof. exact strict_list_is_bad. Qed.
+(* the regenerated Whitespace/Delimiter/DIGIT tables are the sets the specification speaks about *)
+Theorem C26_tables_are_the_ows_sets : forall relaxed c,
+  cs_DIGIT c = c_isdigit c /\ cl_ws relaxed c = ows_before relaxed c /\ cl_delim relaxed c = ows_after relaxed c.
+Proof. exact tables_spec. Qed.
 
-Print Assumptions C26_strict_rejects_lists.
+(* checkValue extracts v from an item iff the item is a one-token decimal of value v (any mode) *)
+Theorem C26_value_accepted_iff_token : forall relaxed item v,
+  cv_parse relaxed item = Some v <-> is_token relaxed item v.
+Proof. exact cv_parse_token. Qed.
+
+Theorem C26_check_value_is_cv_parse : forall relaxed st item,
+  check_value relaxed st item =
+  match cv_parse relaxed item with
+  | None => (false, set_bad st)
+  | Some v => if cl_sawGood st then (false, cv_dup relaxed st v) else (true, cv_first st v)
+  end.
+Proof. exact check_value_unfold. Qed.
+
+(* strict mode, ALL field sequences: a length is used iff there is exactly one field and it is one token *)
+Theorem C26_strict_used_iff_single_token : forall vs v,
+  uses (snd (check_fields false cl_init vs)) v <-> exists f, vs = [f] /\ is_token false f v.
+Proof. exact strict_iff. Qed.
+
+(* relaxed mode, ALL sequences of fields without list syntax: used iff >= 1 field and all are tokens of value v *)
+Theorem C26_relaxed_used_iff_all_equal_tokens : forall vs v,
+  (forall f, In f vs -> has_comma f = false) ->
+  (uses (snd (check_fields true cl_init vs)) v <-> vs <> [] /\ forall f, In f vs -> is_token true f v).
+Proof. exact relaxed_nolist_iff. Qed.
+
+(* any mode, ALL field sequences incl. lists: the value used is the value of every occurrence examined *)
+Theorem C26_used_value_is_every_examined_occurrence_partial : forall relaxed vs v,
+  uses (snd (check_fields relaxed cl_init vs)) v ->
+  concat (map (field_occ relaxed) vs) <> [] /\
+  forall o, In o (concat (map (field_occ relaxed) vs)) -> o = Some v.
+Proof. exact used_value_is_every_examined. Qed.
+
+(* ... and it fits int64 and is non-negative *)
+Theorem C26_used_value_in_range : forall relaxed vs v,
+  uses (snd (check_fields relaxed cl_init vs)) v -> (0 <= v < two63)%Z.
+Proof. exact used_in_range. Qed.
+
+(* otherwise: some occurrence examined and no common value ==> sawBad *)
+Theorem C26_ambiguous_is_flagged : forall relaxed vs,
+  concat (map (field_occ relaxed) vs) <> [] ->
+  (forall v, ~ uses (snd (check_fields relaxed cl_init vs)) v) ->
+  cl_sawBad (snd (check_fields relaxed cl_init vs)) = true.
+Proof. exact ambiguous_is_flagged. Qed.
+
+(* relaxed mode, ALL field sequences incl. lists and repeats, restricted to `clean` values (no NUL — which
+   HttpHeader::parse guarantees — and, in fields containing a comma, no VT, FF or double quote): a length is
+   used iff there is at least one occurrence and every occurrence is a one-token decimal of value v.
+   PARTIAL: without the VT/FF exclusion the statement is false (next theorem); quoted strings in lists are
+   covered only by C26_used_value_is_every_examined_occurrence_partial and by the correspondence run *)
+Theorem C26_relaxed_lists_used_iff_all_occurrences_equal_partial : forall vs v,
+  (forall f, In f vs -> clean f) ->
+  (uses (snd (check_fields true cl_init vs)) v <->
+   concat (map occurrences vs) <> [] /\ forall o, In o (concat (map occurrences vs)) -> is_token true o v).
+Proof. exact relaxed_lists_partial. Qed.
+
+(* the full statement for lists ("every comma-separated element is a token of value v") is FALSE for the
+   code as it is: Content-Length: 1,<VT>,5 is used as 1 — finding C26-list-stops-at-vt-item *)
+Theorem C26_relaxed_every_list_element_refuted :
+  exists vs v, uses (snd (check_fields true cl_init vs)) v /\
+    ~ (forall o, In o (concat (map occurrences vs)) -> is_token true o v).
+Proof. exact relaxed_all_occurrences_refuted. Qed.
+
+Theorem C26_header_vt_list_refuted :
+  exists r, hdr_parse true false false vt_block = Some r /\ content_length r = 1%Z /\
+    h_conflicting r = false /\
+    exists es, block_entries true false vt_block = Some es /\
+      In [53] (concat (map occurrences (cl_values es))) /\ ~ is_token true [53] 1.
+Proof. exact block_vt_list_refuted. Qed.
+
+(* HttpHeader::parse, ALL entry lists: callers see a length only if the interpreter uses exactly it,
+   no Transfer-Encoding is present, Content-Length is not prohibited, and nothing is flagged *)
+Theorem C26_header_length_only_when_used : forall relaxed proh es r,
+  parse_entries relaxed proh es = Some r -> content_length r <> (-1)%Z ->
+  proh = false /\ has_id HTE es = false /\ h_conflicting r = false /\
+  uses (snd (check_fields relaxed cl_init (cl_values es))) (content_length r).
+Proof. exact header_length_sound. Qed.
+
+(* the same for ALL header blocks (bytes) *)
+Theorem C26_block_length_only_when_used : forall relaxed req proh block r,
+  hdr_parse relaxed req proh block = Some r -> content_length r <> (-1)%Z ->
+  exists es, block_entries relaxed req block = Some es /\
+    proh = false /\ has_id HTE es = false /\ h_conflicting r = false /\
+    uses (snd (check_fields relaxed cl_init (cl_values es))) (content_length r).
+Proof. exact block_length_sound. Qed.
+
+(* otherwise: no length, and conflictingContentLength unless no occurrence was examined at all *)
+Theorem C26_header_unusable_is_flagged : forall relaxed es r,
+  parse_entries relaxed false es = Some r -> has_id HTE es = false ->
+  (forall v, ~ uses (snd (check_fields relaxed cl_init (cl_values es))) v) ->
+  content_length r = (-1)%Z /\
+  (h_conflicting r = true \/ concat (map (field_occ relaxed) (cl_values es)) = []).
+Proof. exact header_unusable_flagged. Qed.
+
+(* Transfer-Encoding / 1xx, 204, trailers: Content-Length is removed and never used *)
+Theorem C26_te_or_prohibited_never_uses_clen : forall relaxed proh es r,
+  parse_entries relaxed proh es = Some r -> proh = true \/ has_id HTE es = true ->
+  content_length r = (-1)%Z /\ first_cl (h_entries r) = None.
+Proof. exact header_te_or_prohibited. Qed.
+
+(* the sanitised value re-parses to itself (putInt64 / getInt64) *)
+Theorem C26_sanitised_value_round_trips : forall v, (0 <= v < two63)%Z ->
+  exists n, parse_offset (int64_to_a v) = Some (v, n).
+Proof. exact parse_int64_to_a. Qed.
+
+(* non-vacuity *)
+Example C26_token_example : is_token true [32; 52; 50; 11] 42.
+Proof. exists [32], [52; 50], [11]. repeat split; try reflexivity; discriminate. Qed.
+Example C26_strict_example : uses (snd (check_fields false cl_init [[52; 50]])) 42.
+Proof. vm_compute. repeat split. Qed.
+Example C26_relaxed_duplicates_example : uses (snd (check_fields true cl_init [[52; 50]; [32; 52; 50]])) 42.
+Proof. vm_compute. repeat split. Qed.
+Example C26_strict_duplicates_example : cl_sawBad (snd (check_fields false cl_init [[52; 50]; [52; 50]])) = true.
+Proof. vm_compute. reflexivity. Qed.
+Example C26_conflict_example : cl_sawBad (snd (check_fields true cl_init [[52; 50]; [52; 51]])) = true.
+Proof. vm_compute. reflexivity. Qed.
+Example C26_clean_list_example :
+  clean [53; 44; 32; 53; 44; 44; 9; 53] /\
+  occurrences [53; 44; 32; 53; 44; 44; 9; 53] = [[53]; [53]; [53]] /\
+  uses (snd (check_fields true cl_init [[53; 44; 32; 53; 44; 44; 9; 53]; [53]])) 5.
+Proof. vm_compute. repeat split; intros; reflexivity. Qed.
+Example C26_header_example :
+  option_map content_length (hdr_parse true false false
+    [67;111;110;116;101;110;116;45;76;101;110;103;116;104;58;32;53;44;32;53;13;10;13;10]) = Some 5%Z.
+Proof. vm_compute. reflexivity. Qed.
+
+Print Assumptions C26_tables_are_the_ows_sets.
+Print Assumptions C26_value_accepted_iff_token.
+Print Assumptions C26_check_value_is_cv_parse.
+Print Assumptions C26_strict_used_iff_single_token.
+Print Assumptions C26_relaxed_used_iff_all_equal_tokens.
+Print Assumptions C26_used_value_is_every_examined_occurrence_partial.
+Print Assumptions C26_used_value_in_range.
+Print Assumptions C26_ambiguous_is_flagged.
+Print Assumptions C26_relaxed_lists_used_iff_all_occurrences_equal_partial.
+Print Assumptions C26_relaxed_every_list_element_refuted.
+Print Assumptions C26_header_vt_list_refuted.
+Print Assumptions C26_header_length_only_when_used.
+Print Assumptions C26_block_length_only_when_used.
+Print Assumptions C26_header_unusable_is_flagged.
+Print Assumptions C26_te_or_prohibited_never_uses_clen.
+Print Assumptions C26_sanitised_value_round_trips.
